@@ -200,3 +200,73 @@ def joint_vs_solo(arrays, scheduler="sync"):
             if not same:
                 bad.append(i)
     return bad
+
+
+# ---------------------------------------------------------------------------------------------
+# purity of the sources
+# ---------------------------------------------------------------------------------------------
+
+def _snapshot(x):
+    if isinstance(x, np.ma.MaskedArray):
+        return ("ma", np.ma.getdata(x).copy(), np.ma.getmaskarray(x).copy(), np.asarray(x.fill_value).copy())
+    return ("nd", x.copy())
+
+
+def _unchanged(x, snap):
+    if snap[0] == "ma":
+        d, m, f = snap[1:]
+        return (np.array_equal(np.ma.getmaskarray(x), m) and _eq(np.ma.getdata(x), d) and _eq(np.asarray(x.fill_value), f))
+    return _eq(x, snap[1])
+
+
+def _eq(a, b):
+    try:
+        return bool(np.array_equal(a, b, equal_nan=True))
+    except TypeError:
+        return bool(np.array_equal(a, b))
+
+
+def pure_sources(case):
+    """Wrap a case function: every NumPy array handed to `da.from_array` during the case must be unchanged
+    (data, mask, fill_value) when the case ends, and so must the dask array made from it — `from_array` keeps its
+    own copy in the graph, chunk functions receive views of that copy and must not write to them (a later compute of
+    the same collection, or another consumer in the same graph, would see the damage)."""
+    def wrapped(ctx, inp):
+        import dask.array as da
+        orig = da.from_array
+        seen = []
+
+        def recording_from_array(x, *args, **kwargs):
+            r = orig(x, *args, **kwargs)
+            if isinstance(x, np.ndarray) and len(seen) < 32 and not any(x is y for y, _, _, _ in seen):
+                seen.append((x, _snapshot(x), r, r.name))
+            return r
+
+        da.from_array = recording_from_array
+        try:
+            case(ctx, inp)
+        finally:
+            da.from_array = orig
+        for x, snap, darr, name0 in seen:
+            if not _unchanged(x, snap):
+                ctx.fail("computing changed a NumPy array that was passed to from_array (a chunk function wrote to its input)",
+                         observed=np.ma.filled(x, 0).tolist() if x.size <= 64 else list(x.shape),
+                         expected=snap[1].tolist() if snap[1].size <= 64 else None)
+                break
+            if darr.name != name0:
+                continue        # redefined in place by an API that does so (da.ma.set_fill_value)
+            try:
+                with warnings.catch_warnings():
+                    warnings.simplefilter("ignore")
+                    again = darr.compute(scheduler="sync")
+            except Exception:   # noqa: BLE001 — not this oracle's business
+                continue
+            if not _unchanged(again, snap) if snap[0] == "ma" and isinstance(again, np.ma.MaskedArray) else not _eq(np.ma.getdata(again), snap[1]):
+                ctx.fail("a source array recomputed after the case differs from the NumPy array it was made from "
+                         "(a chunk function wrote to the block it was given)",
+                         observed=np.ma.filled(again, 0).tolist() if np.size(again) <= 64 else None,
+                         expected=snap[1].tolist() if snap[1].size <= 64 else None)
+                break
+    wrapped.__name__ = getattr(case, "__name__", "case")
+    wrapped.__doc__ = case.__doc__
+    return wrapped
